@@ -414,7 +414,13 @@ fn heartbeat_case(check: &Check, cfg: Config, ops: &[Op], rng: &mut Rng) {
             // the builder accepting it: keep the two apart
             let valid = judge(&cfg_copy, ops).is_empty();
             check.violation(
-                format!("{}@{}", if valid { "heartbeat-panic-with-valid-config" } else { "heartbeat-panic" }, p.site()),
+                {
+                    // line numbers shift with unrelated edits: key the signature on file + panic message
+                    let site = p.site();
+                    let file = site.rsplit_once(':').map(|(f, _)| f.to_string()).unwrap_or(site);
+                    let msg: String = p.msg.chars().take(48).collect();
+                    format!("{}@{}:{}", if valid { "heartbeat-panic-with-valid-config" } else { "heartbeat-panic" }, file, msg)
+                },
                 format!("heartbeat panicked with an accepted config ({}): {}", if valid { "satisfying the inequalities" } else { "violating the inequalities" }, p.msg),
                 json!({"ops": ops_json(ops), "driver": log}),
             );
